@@ -41,6 +41,7 @@ pub fn run_line(line: &str, scratch: &str) -> String {
         "build" => by_width!(c, op_build, scratch),
         "hist" => by_width!(c, op_hist, scratch),
         "skf" => by_width!(c, op_skf, scratch),
+        "buildalign" => by_width!(c, op_buildalign, scratch),
         "covll" => op_covll(c),
         "covcut" => op_covcut(c),
         "cov" => by_width!(c, op_cov, scratch),
@@ -712,4 +713,38 @@ fn op_cov<IntT: for<'a> UInt<'a>>(c: &Case, scratch: &str) -> String {
         ),
         Err(_) => format!("nkeys={} dict={} fit=err hist={}", kc.len(), dict_hash, join(&hist)),
     }
+}
+
+
+// ------------------------------------------------------------------ C03: build + align on sample sets
+
+fn op_buildalign<IntT: for<'a> UInt<'a>>(c: &Case, scratch: &str) -> String {
+    let dir = format!("{scratch}/ba");
+    let _ = std::fs::remove_dir_all(&dir);
+    std::fs::create_dir_all(&dir).unwrap();
+    let mut inputs: Vec<(String, String, Option<String>)> = Vec::new();
+    for (i, smp) in c.get("samples").split('|').enumerate() {
+        let recs: Vec<&str> = smp.split('+').map(|r| if r == "." { "" } else { r }).collect();
+        let p = format!("{dir}/s{i}.fa");
+        write_fasta(&p, &recs, "q");
+        inputs.push((format!("s{i}"), p, None));
+    }
+    let qual = QualOpts { min_count: 1, min_qual: 0, qual_filter: QualFilter::NoFilter };
+    let d = build_and_merge::<IntT>(&inputs, c.usize("k"), c.flag("rc"), &qual, 1, None);
+    let mut a = MergeSkaArray::new(&d);
+    let n = a.nsamples();
+    let path = format!("{dir}/aln.fa");
+    generic_modes::align(
+        &mut a,
+        &Some(path.clone()),
+        &filter_type(c.get("ft")),
+        c.flag("mask"),
+        c.flag("gaps"),
+        freq_for(c.usize("t"), n),
+        c.flag("famb"),
+    );
+    let seqs = parse_fasta_text(&std::fs::read_to_string(&path).unwrap());
+    let names: Vec<String> = seqs.iter().map(|s| s.0.clone()).collect();
+    let _ = std::fs::remove_dir_all(&dir);
+    format!("align[names={};cols={}]", join(&names), columns_of(&seqs))
 }
